@@ -329,6 +329,7 @@ func (ctrler *EVMCtrler) Commit() ([]byte, int64, xerrors.XError) {
 	if err != nil {
 		panic(err)
 	}
+	verifhook.DurableWritten("evm:state")
 	if err := ctrler.stateDBWrapper.Database().TrieDB().Commit(rootHash, true, nil); err != nil {
 		panic(err)
 	}
